@@ -5,6 +5,7 @@ package main
 import (
 	"net/http"
 	"sort"
+	"strconv"
 	"strings"
 
 	"github.com/jub0bs/cors"
@@ -139,6 +140,27 @@ func genValidConfig(r R) cors.Config {
 		c.RequestHeaders = r.perm(append(pickN(r, reqHdrsValid, 3), "*"))
 	case 3, 4:
 		c.RequestHeaders = pickN(r, reqHdrsValid, 5)
+	}
+	// occasionally: long lists (sets and trees with dozens of entries)
+	if r.chance(1, 12) {
+		n := 8 + r.Intn(40)
+		if c.Origins[0] != "*" || len(c.Origins) > 1 {
+			for i := 0; i < n; i++ {
+				c.Origins = append(c.Origins, r.pick([]string{"https://", "https://*.", "https://localhost-", "https://x"})+"h"+strconv.Itoa(r.Intn(n))+r.pick([]string{".example.com", ".example.org", "example.com"})+r.pick([]string{"", "", ":8443", ":*"}))
+			}
+			c.Origins = r.perm(c.Origins)
+		}
+		if len(c.RequestHeaders) > 0 || r.chance(1, 2) {
+			for i := 0; i < n; i++ {
+				c.RequestHeaders = append(c.RequestHeaders, r.pick([]string{"x-h", "X-H", "x-", "h"})+strconv.Itoa(r.Intn(n)))
+			}
+			c.RequestHeaders = r.perm(c.RequestHeaders)
+		}
+		if len(c.Methods) > 0 || r.chance(1, 2) {
+			for i := 0; i < n/2; i++ {
+				c.Methods = append(c.Methods, r.pick([]string{"M", "m", "QUERY"})+strconv.Itoa(r.Intn(n)))
+			}
+		}
 	}
 	c.MaxAgeInSeconds = maxAges[r.Intn(len(maxAges))]
 	c.PreflightSuccessStatus = statuses[r.Intn(len(statuses))]
